@@ -693,8 +693,11 @@ func runC10_18(c *core.Ctx) {
 			if !ok {
 				continue
 			}
-			if m == "IsEmpty" && name != "IsEmpty" {
-				continue // the emptiness test that decides whether the ring goes back to the pool
+			switch m {
+			case "IsEmpty", "IsFull", "Buffered", "Available", "Len", "Cap":
+				if m != name {
+					continue // an observer consulted on the way (the emptiness test before the ring goes back to the pool, a guard)
+				}
 			}
 			k++
 			good := m == name && len(call.Args) == sig.Params().Len()
